@@ -246,9 +246,6 @@ impl C19 {
             if growth > hi || growth + lo_slack < hi {
                 out.violation(P, "holders_receive_delivery", format!("delivered {} (+ backlog {}) but holders' accrued total grew by {} e-18 (expected {} e-18 minus at most {} e-18)", delivered, backlog, growth, hi, lo_slack));
             }
-            if post.prev_reward_balance != post.reward_bank {
-                out.violation(P, "holders_receive_delivery", format!("recorded reward balance {} differs from actual {}", post.prev_reward_balance, post.reward_bank));
-            }
             if x > 0 {
                 out.count("c19.updates_delivering_to_holders");
             }
